@@ -6,6 +6,9 @@ CLAIMED = {
  "C03": ("C03 adaptation field edit histories", "§4 C03",
    "Seeded search over initial well-formed packets (adaptation_field_length 1..183, any legal subset of optional fields) x scripted histories of <=40 setter calls (flags, presence toggles incl. repeats, timestamp/countdown values, private data/extension sized to 'exactly fills'/'one too many', values for absent fields, SetAdaptationField from another packet) against a logical adaptation-field model: 188 bytes compared with the ISO serialisation after every call, all getters in both API styles, refusals must be atomic and calls that fit must succeed (capacity exhaustion is the injected fault); complete sweep of all histories of length <=4 (quick) / <=5 (thorough) over a 12-letter alphabet x 9 field lengths. Sampling beyond the sweep. Thin simulated dimension (operation order and refusal atomicity only).",
    "Trusts the reference serialiser; method getters for private data/extension accepted in either shape; unset timestamp bytes are wildcards."),
+ "C05": ("C05 decoders are total", "§4 C05",
+   "Seeded search over well-formed multi-PID streams (PAT, PMT, PES, EBP, SCTE-35 of all supported shapes, null) damaged by 0..4 scripted faults at three layers (message: length/flag fields flipped, set to 0/1/max, +-k, uniform flips, truncation; packet: drop/dup/swap, header and adaptation-field bit flips; stream: truncation at any byte, byte insert/delete, garbage prefix, bit flips) and read through fragmenting/failing readers, driven through a pipeline that mirrors cli/parsefile.go and extends it to every decoding entry point, the modifiers, the accumulators, the tracker and the writer adapter, plus direct parser calls on damaged, truncated, empty and over-long inputs; each library call is guarded (panic), journaled to a crash-safe page and watched (hang > 10 s, live heap > 1 GiB, per-call allocation bound) in worker processes, fatal failures are confirmed and minimised in fresh processes; read-only calls must leave caller buffers untouched; objects returned without error are queried, printed and re-encoded. Complete sweep for 4 fixed streams of every single-bit flip / 0 / 1 / 0xFF of every marked length or flag field and of stream truncation at every byte. Sampling beyond the sweep.",
+   "Decides totality near well-formed streams (the part of the quantifier the statement singles out), not on arbitrary byte strings; the wall clock enters only through the hang watchdog (confirmed by replay); allocation accounting is exact to within ~2 MiB against a 32 MiB+ bound."),
  "C06": ("C06 PMT decoding vs packetisation", "§4 C06",
    "Seeded search over abstract PMTs x pointer_field x foreign sections before x trailing stuffing x per-packet split sizes and stuffing styles x multiplexer schedule among foreign PIDs (incl. another PMT on another PID) x every Read outcome of a scripted reader x truncation; ReadPMT and NewPMT compared with the abstract PMT, the completion predicate evaluated on every prefix of the payload (sender crash points), CRC and header accessors checked; complete sweep of first-packet size 1..184 x pointer 0..20 x 3 stuffing styles for 3 fixed PMTs. Sampling, not proof.",
    "Trusts the reference serialiser/CRC written from ISO 13818-1; opaque descriptor bodies are compared by tag only (no raw accessor in the API); one recorded known finding (zero-stream PMT through ReadPMT)."),
